@@ -144,6 +144,18 @@ type Client struct {
 	FailBroadcastAt int
 	Dead            bool
 	Calls           map[string]int
+	// Cap: when > 0, this client sees the chain only up to that height ("latest" answers are
+	// given as if the chain ended there); lets a driver make a party process one block at a time.
+	Cap int64
+}
+
+// latest is the height this client takes for the newest block.
+func (cl *Client) latest() int64 {
+	h := cl.chain.Height()
+	if cl.Cap > 0 && cl.Cap < h {
+		return cl.Cap
+	}
+	return h
 }
 
 // NewClient returns a client of the chain for the named party.
@@ -157,7 +169,7 @@ func (cl *Client) Block(_ context.Context, height *int64) (*coretypes.ResultBloc
 		return nil, ErrCrash
 	}
 	c := cl.chain
-	h := c.Height()
+	h := cl.latest()
 	if height != nil {
 		h = *height
 	}
@@ -185,7 +197,7 @@ func (cl *Client) BlockResults(_ context.Context, height *int64) (*coretypes.Res
 		return nil, ErrCrash
 	}
 	c := cl.chain
-	h := c.Height()
+	h := cl.latest()
 	if height != nil {
 		h = *height
 	}
@@ -208,9 +220,9 @@ func (cl *Client) BlockchainInfo(_ context.Context, _, _ int64) (*coretypes.Resu
 		return nil, ErrCrash
 	}
 	c := cl.chain
-	res := &coretypes.ResultBlockchainInfo{LastHeight: c.Height()}
+	res := &coretypes.ResultBlockchainInfo{LastHeight: cl.latest()}
 	// newest first, as Tendermint answers; at most 20 metas
-	for h := c.Height(); h >= 1 && len(res.BlockMetas) < 20; h-- {
+	for h := cl.latest(); h >= 1 && len(res.BlockMetas) < 20; h-- {
 		res.BlockMetas = append(res.BlockMetas, &tmtypes.BlockMeta{Header: tmtypes.Header{ChainID: c.ChainID, Height: h}})
 	}
 	return res, nil
